@@ -95,6 +95,9 @@ func contractHasTag(c *Contract, p string) bool {
 			return true
 		}
 	}
+	if c.MapInv != nil && hasTag(c.MapInv.Tags, p) {
+		return true
+	}
 	for _, nc := range c.NeedsClean {
 		if hasTag(nc.Tags, p) {
 			return true
